@@ -74,8 +74,13 @@ def create_checks_under_lock(ctx, chk, rid):
     lookups = M(r"rawdb::regions::Regions::(get_from_id|get_index_from_id|contains)|std::collections::hash::map::HashMap::<K, V, S(, A)?>::(get|contains_key)")
     for b in cs:
         g = O.guard_local_of(cr, cr.blocks[b]["term"]["args"][0])
-        ls = [x for x in O.sites(cr, lookups) if O.guard_local_of(cr, cr.blocks[x]["term"]["args"][0]) == g and g is not None
-              and O.can_reach(cr, x, [b])]
+        def through_guard(x):
+            a0 = cr.blocks[x]["term"]["args"][0]
+            if O.guard_local_of(cr, a0) == g:
+                return True
+            # through an accessor of the guarded table (`regions.id_to_index().get(id)`)
+            return g in O.slice_back(cr, a0)["locals"]
+        ls = [x for x in O.sites(cr, lookups) if g is not None and through_guard(x) and O.can_reach(cr, x, [b])]
         held = O.held_classes(cr, b)
         chk.oblige("%s create_region_if_needed: the id is looked up through the REGIONS write guard that Regions::create "
                    "uses [%d lookup(s) on that guard]" % (rid, len(ls)), bool(ls) and ("REGIONS", "W") in held,
